@@ -55,11 +55,58 @@ def parse_msg_tok(tok: str):
     return (mtype, tags)
 
 
+_SUB_US = [0, 499, 500, 999, 1, 750, 250, 998]
+CLOCK_BASE = (2024, 1, 2)
+
+
+def codec_clock(now_ms: int):
+    """the instant the UTC clock read by `Codec.current_datetime()` shows while `time.time()` is now_ms/1000:
+    (millisecond of the day, microseconds below the millisecond).  A deterministic function of now_ms, so
+    events need no extra field; NOT the identity: every 16th 125 ms slot is snapped to the last millisecond of
+    the current minute / hour / day (second 59, .999 plus 499 / 500 / 999 / 0 us - the roll-over boundaries),
+    which also makes this clock stand still and step backwards relative to time.time().  `time.time()` itself
+    stays a multiple of 125 ms (exact float arithmetic in the watchdog)."""
+    tod = now_ms % 86_400_000
+    slot = now_ms // 125
+    k = slot % 16
+    sub = _SUB_US[(slot // 16 + k) % len(_SUB_US)]
+    if k == 7:
+        tod = tod - tod % 60_000 + 59_999
+        sub = [499, 500, 999, 0][(slot // 16) % 4]
+    elif k == 11:
+        tod = tod - tod % 3_600_000 + 3_599_999
+        sub = [999, 500][(slot // 16) % 2]
+    elif k == 13:
+        tod = 86_399_999
+        sub = [999, 499, 500][(slot // 16) % 3]
+    return tod, sub
+
+
 def stamp(now_ms: int) -> str:
-    """deterministic `Codec.current_datetime()` of the patched clock"""
-    s, ms = divmod(now_ms, 1000)
-    s %= 86400
-    return "20240102-%02d:%02d:%02d.%03d" % (s // 3600, s // 60 % 60, s % 60, ms)
+    """the SendingTime text the UNCHANGED `Codec.current_datetime()` prints for the clock `codec_clock(now_ms)`
+    (date fixed to CLOCK_BASE, microseconds truncated to milliseconds)"""
+    tod, _ = codec_clock(now_ms)
+    s, ms = divmod(tod, 1000)
+    return "%04d%02d%02d-%02d:%02d:%02d.%03d" % (CLOCK_BASE + (s // 3600, s // 60 % 60, s % 60, ms))
+
+
+def fake_datetime_class(get_now_ms):
+    """a `datetime` subclass whose utcnow() / now() show `codec_clock(get_now_ms())`: patched into
+    `asyncfix.codec` as the name `datetime`, so that the REAL `Codec.current_datetime()` runs"""
+    import datetime as _dt
+
+    class FakeDateTime(_dt.datetime):
+        @classmethod
+        def utcnow(cls):
+            tod, sub = codec_clock(get_now_ms())
+            return _dt.datetime(*CLOCK_BASE) + _dt.timedelta(milliseconds=tod, microseconds=sub)
+
+        @classmethod
+        def now(cls, tz=None):
+            r = cls.utcnow()
+            return r if tz is None else r.replace(tzinfo=_dt.timezone.utc).astimezone(tz)
+
+    return FakeDateTime
 
 
 @dataclass
@@ -112,6 +159,9 @@ def event_tokens(ev) -> str:
         return f"conn {ev[1]}"
     if k == "reset":
         return "reset"
+    if k == "read":  # one read() chunk: ev[2] = decodable frames in order, ev[3] = junk bytes after them
+        fs = ev[2]
+        return f"feed {ev[1]} {stok(stamp(ev[1]))} {len(fs)}" + "".join(" " + msg_tok(m) for m in fs)
     raise ValueError(ev)
 
 
@@ -267,17 +317,23 @@ class _Abort(BaseException):
 
 
 class _Writer:
-    def __init__(self, eff):
+    def __init__(self, eff, impl=None):
         self.eff = eff
+        self.impl = impl
 
     def write(self, b):
+        if self.impl is not None:
+            self.impl._fault_point("writer.write")
         self.eff.append(("W", bytes(b)))
 
     async def drain(self):
-        pass
+        if self.impl is not None:
+            self.impl._fault_point("writer.drain")
 
     def close(self):
         self.eff.append(("CS",))
+        if self.impl is not None:
+            self.impl._fault_point("writer.close")
 
     async def wait_closed(self):
         pass
@@ -312,10 +368,28 @@ class _Log:
 
     def exception(self, *a, **k):
         kind = exc_kind(sys.exc_info()[0])
-        if self.mode == "msg":
-            self.eff.append(("C", kind))
-        else:  # inside a task's outermost handler: the iteration is aborted
+        text = str(a[0]) if a else ""
+        outermost = text.startswith("socket_read_task") or text.startswith("heartbeat_timer")
+        if self.mode == "task" and outermost:  # a task's outermost handler: the iteration is aborted
             raise _Abort(kind)
+        self.eff.append(("C", kind))
+
+
+def make_exc(name):
+    """exception instance of an injected collaborator fault"""
+    import asyncio
+    import sqlite3
+
+    from asyncfix import errors as E
+
+    table = {"sqlite3.OperationalError": lambda: sqlite3.OperationalError("database or disk is full"),
+             "sqlite3.DataError": lambda: sqlite3.DataError("injected"),
+             "RuntimeError": lambda: RuntimeError("unable to perform operation on closed transport"),
+             "ConnectionResetError": lambda: ConnectionResetError("reset by peer"),
+             "OSError": lambda: OSError("injected"), "FIXError": lambda: E.FIXError("injected"),
+             "ValueError": lambda: ValueError("injected"), "KeyError": lambda: KeyError("injected"),
+             "CancelledError": lambda: asyncio.CancelledError()}
+    return table[name]()
 
 
 def run_coro(coro):
@@ -349,9 +423,15 @@ class Impl:
         self.now_ms = 0
         impl = self
 
-        # patched clock / sleep, local to asyncfix.connection and Codec
-        self._saved = (cm.time, cm.asyncio, Codec.__dict__["current_datetime"])
+        # patched clock / sleep, local to asyncfix.connection and asyncfix.codec.  The clock
+        # `Codec.current_datetime()` READS is patched (the module's `datetime` name), the method itself runs.
+        import asyncfix.codec as codec_mod
+
+        self.codec_mod = codec_mod
+        self._saved = (cm.time, cm.asyncio, getattr(codec_mod, "datetime", None))
         cm.time = types.SimpleNamespace(time=lambda: impl.now_ms / 1000)
+        self.fake_datetime = fake_datetime_class(lambda: impl.now_ms)
+        codec_mod.datetime = self.fake_datetime
 
         async def _sleep(_d):
             raise _Done()
@@ -363,7 +443,6 @@ class Impl:
         proxy = _AsyncioProxy()
         proxy.sleep = _sleep
         cm.asyncio = proxy
-        Codec.current_datetime = staticmethod(lambda: stamp(impl.now_ms))
         self.Codec = Codec
         self.codec = Codec(FIXProtocol44())
 
@@ -374,21 +453,26 @@ class Impl:
         class Hooks:
             async def on_message(self, msg):
                 eff.append(("D", msg))
+                impl._fault_point("hook.on_message")
 
             async def on_connect(self):
                 eff.append(("CN",))
 
             async def on_disconnect(self):
                 eff.append(("DC",))
+                impl._fault_point("hook.on_disconnect")
 
             async def on_logon(self, healthy):
                 eff.append(("L", bool(healthy)))
+                impl._fault_point("hook.on_logon")
 
             async def on_logout(self, msg):
                 eff.append(("LO", msg))
+                impl._fault_point("hook.on_logout")
 
             async def on_state_change(self, s):
                 eff.append(("S", int(s)))
+                impl._fault_point("hook.on_state_change")
 
             async def should_replay(self, msg):
                 if impl.declined is None:
@@ -416,13 +500,41 @@ class Impl:
         self.journal = Journaler()
         self.log = _Log(eff)
         self.conn = Conn(FIXProtocol44(), "S", "T", self.journal, "h", 1, 30, logger=self.log)
-        self.writer = _Writer(eff)
+        self.writer = _Writer(eff, self)
+        # collaborator faults (round 5): {"where": point, "k": n-th call since load(), "exc": class name}
+        self.fault, self.fault_fired, self.calls = None, False, {}
+        self.buflog = []
+        real_persist, real_setseq = self.journal.persist_msg, self.journal.set_seq_num
+
+        def persist_msg(*a, **k):
+            impl._fault_point("journal.persist")
+            return real_persist(*a, **k)
+
+        def set_seq_num(*a, **k):
+            impl._fault_point("journal.set_seq_num")
+            return real_setseq(*a, **k)
+
+        self.journal.persist_msg, self.journal.set_seq_num = persist_msg, set_seq_num
         self.key = self.conn._session.key
         self.Conn = Conn
 
+    FAULT_POINTS = ["journal.persist", "journal.set_seq_num", "writer.write", "writer.drain", "writer.close",
+                    "hook.on_message", "hook.on_disconnect", "hook.on_logon", "hook.on_logout", "hook.on_state_change"]
+    FAULT_CLASSES = ["sqlite3.OperationalError", "sqlite3.DataError", "RuntimeError", "ConnectionResetError",
+                     "OSError", "FIXError", "ValueError", "KeyError"]
+
+    def _fault_point(self, where):
+        n = self.calls.get(where, 0) + 1
+        self.calls[where] = n
+        f = self.fault
+        if f and not self.fault_fired and f["where"] == where and f["k"] == n:
+            self.fault_fired = True
+            raise make_exc(f["exc"])
+
     def close(self):
-        self.cm.time, self.cm.asyncio, cd = self._saved
-        self.Codec.current_datetime = cd
+        self.cm.time, self.cm.asyncio, dt = self._saved
+        if dt is not None:
+            self.codec_mod.datetime = dt
 
     # ---- state in / out --------------------------------------------------------------------
     def load(self, a: AbsConn):
@@ -451,6 +563,8 @@ class Impl:
                 cur.execute("INSERT INTO message VALUES(?, ?, ?, ?)", (seq, self.key, d.value, fields_to_bytes(fs)))
         j.conn.commit()
         del self.eff[:]
+        self.calls, self.fault_fired = {}, False
+        self.buflog = []
 
     def dump(self) -> str:
         c, j = self.conn, self.journal
@@ -570,6 +684,20 @@ class Impl:
                     self.eff.append(("R", a.kind))
                 if c._socket_reader is not None:
                     c._socket_reader = object()
+            elif k == "read":
+                # ONE read() chunk through the real reader task (real decoder, real inner loop)
+                self.log.mode = "task"
+                chunk = b"".join(fields_to_bytes(fs) for _, fs in ev[2]) + ev[3].encode("latin-1")
+                if c._socket_reader is not None:
+                    c._socket_reader = _Reader([chunk])
+                try:
+                    run_coro(c.socket_read_task())
+                except _Done:
+                    pass
+                except _Abort as a:
+                    self.eff.append(("R", a.kind))
+                if c._socket_reader is not None:
+                    c._socket_reader = object()
             elif k == "conn":
                 self._connected(ev[1])
             else:
@@ -578,6 +706,12 @@ class Impl:
             raise
         except Exception as e:  # escaped the entry point
             self.eff.append(("R", exc_kind(e)))
+        except BaseException as e:
+            if type(e).__name__ != "CancelledError":
+                raise
+            self.eff.append(("R", "Other:CancelledError"))
+        finally:
+            self.buflog.append(len(c._msg_buffer))  # receive-buffer length after every event (oracles)
 
     def _connected(self, kind):
         """connection_client.connect() / connection_server._handle_accept(): the REAL methods run on the
@@ -903,6 +1037,39 @@ def near_cases(rng, states=(6, 7, 12, 17), roles=(1, 2)):
                         yield (a, "all", ("recv", T0, defective(a, "none", mt, body, base_, pv, T0)), f"near:43-{bl}:{pv!r}")
 
 
+def chunk_patterns(a: AbsConn, now=T0):
+    """read() chunks of several frames (round 5): a defective / premature / session-ending frame FOLLOWED by
+    more frames in the same chunk, and plain multi-frame chunks.  Yields (label, frames, junk)."""
+    ni = a.next_in
+    tid = a.test_req_id if a.test_req_id is not None else 7
+    logon = lambda seq: inbound(a, "A", [(98, "0"), (108, "30")], seq=seq, now_ms=now)
+    app = lambda seq, txt="x": inbound(a, "D", [(58, txt)], seq=seq, now_ms=now)
+    yield ("wrong-target-logon+logon", [defective(a, "target-wrong", "A", [(98, "0"), (108, "30")], ni, False, now), logon(ni)], "")
+    yield ("app+logon", [app(ni), logon(ni)], "")
+    yield ("logon+app", [logon(ni), app(ni + 1)], "")
+    yield ("logon+app+app", [logon(ni), app(ni + 1), app(ni + 2)], "8=FI")
+    yield ("app+app", [app(ni), app(ni + 1)], "\n")
+    yield ("toolow+app", [app(ni - 1), app(ni)], "")
+    yield ("logout+app", [inbound(a, "5", [], seq=ni, now_ms=now), app(ni + 1)], "")
+    yield ("wrongid-heartbeat+app", [inbound(a, "0", [(112, str(tid + 1))], seq=ni, now_ms=now), app(ni + 1)], "")
+    yield ("noseq+logon+app", [inbound(a, "D", [(58, "x")], seq=None, now_ms=now), logon(ni), app(ni + 1)], "garbage")
+    yield ("gap+app", [app(ni + 3), app(ni + 4)], "")
+    yield ("junk-only", [], "\n")
+    yield ("junk-only-marker-prefix", [], "8=FI")
+
+
+def read_cases(rng, states=(3, 6, 7, 12, 17), roles=(1, 2)):
+    """single steps: one read() chunk with several frames through the real reader task"""
+    k = rng.randrange(1000)
+    for st in states:
+        for role in roles:
+            k += 1
+            a = with_journal(base_state(st, role, k), "app")
+            a.sock = st > 3
+            for lab, frames, junk in chunk_patterns(a):
+                yield (a, "all", ("read", T0, frames, junk), f"read:{lab}")
+
+
 def base_state(st, role, k, rng=None) -> AbsConn:
     """abstract state for the k-th case of a (state, role) cell: counters, watermark, TestReqID, times
     and socket cycle deterministically with k so that every class meets several concrete values."""
@@ -1027,6 +1194,9 @@ def next_event(rng, a: AbsConn, now, wide=False):
     if wide and a.state == 7 and r < 0.25:
         mt, tags, lab = rng.choice(send_classes())
         return (sr, ("send", now, (mt, tags)), "send:" + lab)
+    if wide and a.state > 3 and 0.25 <= r < 0.37:
+        lab, frames, junk = rng.choice(list(chunk_patterns(a, now)))
+        return (sr, ("read", now, frames, junk), "read:" + lab)
     if a.state <= 3:
         if r < 0.6:
             return (sr, ("conn", "acc" if a.role == 2 else rng.choice(["init", "init", "fail"])), "conn")
@@ -1104,6 +1274,7 @@ def run_history(impl: Impl, rng, max_len, stats=None, wide=False):
     role = rng.choice([0, 1, 1, 2, 2]) if wide else rng.choice([1, 1, 2])
     start = fresh(role, rng)
     impl.load(start)
+    impl.fault_step = None
     now = T0
     a = start
     steps = []
@@ -1112,12 +1283,17 @@ def run_history(impl: Impl, rng, max_len, stats=None, wide=False):
         now += rng.choice([0, 125, 250, 1000, 1000, 3000, a.hb * 1000, a.hb * 2000 + 125])
         sr, ev, lab = next_event(rng, a, now, wide) if wide else next_event(rng, a, now)
         del impl.eff[:]
+        before = impl.fault_fired
         impl.apply(sr, ev)
+        if impl.fault_fired and not before:
+            impl.fault_step = len(steps)
         eff, post = impl.effects(), impl.dump()
         if stats is not None:
             note_stats(stats, a, ev, eff, lab)
         steps.append((sr, ev, lab, eff, post))
         a = parse_conn_tokens(post)
+        if ev[0] == "read" and any(e.startswith("R=") for e in eff):
+            break  # the rest of the chunk stays in the buffer: the model's `feed` hands it back, the history ends
     return start, steps
 
 
